@@ -161,6 +161,39 @@ def gen(tier, seed):
                                     exp += ">"
                             t = [("for", "i", ("cnt", I(1), I(n)), None, None, False, outer, None), ("text", "|end")]
                             add(t, [], exp + "|end", "interrupt")
+    # break / continue raised outside any iteration of the inner loop: in its else branch (the inner loop selected nothing), and below nested if / case / unless blocks
+    data_e = [["none", ["a", []]], ["a", ["a", [["i", "7"], ["i", "8"]]]]]
+    empties = [(("cnt", I(1), I(0)), None, None), (("arr", var("none")), None, None), (("arr", var("a")), None, I(2)), (("arr", var("a")), I(0), None), (("cnt", I(5), I(1)), None, None)]
+    for n in range(1, 5):
+        for bi in range(1, n + 1):
+            for kind in ("break", "continue"):
+                for coll, lim, off in empties:
+                    inner = ("for", "j", coll, lim, off, False, [("text", "J")], [("if", True, ("bin", var("i"), "==", I(bi)), [(kind,)], None), ("text", "e")])
+                    t = [("for", "i", ("cnt", I(1), I(n)), None, None, False, [("text", "<"), ("out", (var("i"), [])), inner, ("text", ">")], None), ("text", "|end")]
+                    exp = ""
+                    for i in range(1, n + 1):
+                        exp += "<%d" % i
+                        if i == bi:
+                            if kind == "break":
+                                break
+                            continue
+                        exp += "e>"
+                    add(t, data_e, exp + "|end", "interrupt in the else branch of an empty inner loop")
+                wraps = [lambda b: [("if", True, ("ex", lit(["b", True])), [("if", False, ("ex", lit(["n"])), b, None)], None)],
+                         lambda b: [("case", var("i"), [([I(bi)], b)], [("text", "")])],
+                         lambda b: [("if", True, ("ex", lit(["b", False])), [("text", "no")], [("text", "")] + b)]]
+                for w in wraps:
+                    body = [("text", "<"), ("out", (var("i"), []))] + w([("if", True, ("bin", var("i"), "==", I(bi)), [(kind,)], None)]) + [("text", ">")]
+                    t = [("for", "i", ("cnt", I(1), I(n)), None, None, False, body, None), ("text", "|end")]
+                    exp = ""
+                    for i in range(1, n + 1):
+                        exp += "<%d" % i
+                        if i == bi:
+                            if kind == "break":
+                                break
+                            continue
+                        exp += ">"
+                    add(t, data_e, exp + "|end", "interrupt below nested blocks")
     # parentloop chains and forloop inside nested loops (random larger instances)
     nrand = 300 if tier == "quick" else 6000
     for _ in range(nrand):
